@@ -215,12 +215,12 @@ theorem push_refines {s : State} {a : AS} (h : R s a) (x : Int) :
     have hk : ((s.arr.length : Int) + 25).toNat - s.arr.length = 25 := by omega
     have hrun : push.run (setVar s vArg x) =
         (setVar (setVar { (setVar (setVar (setVar (setVar s vArg x) 2 (s.arr.length + 25)) 4 ((s.arr.length + 25) * 4)) 3 1) with
-            arr := (s.arr ++ List.replicate 25 0).set a.stack.length a.start } 1 (a.stack.length + 1)) 0 (1 + 2 * x), .normal) := by
+            arr := (s.arr ++ List.replicate 25 garbage).set a.stack.length a.start } 1 (a.stack.length + 1)) 0 (1 + 2 * x), .normal) := by
       simp [push, St.run, Ex.eval, bind, Option.bind, pure, setVar_vars, vArg, hp, hd, b2i, hst, hdiv, heq, hk]
       rfl
     rw [hrun]
-    have hlt : a.stack.length < (s.arr ++ List.replicate 25 0).length := by simp; omega
-    have htk : (s.arr ++ List.replicate 25 (0 : Int)).take a.stack.length = a.stack := by
+    have hlt : a.stack.length < (s.arr ++ List.replicate 25 garbage).length := by simp; omega
+    have htk : (s.arr ++ List.replicate 25 garbage).take a.stack.length = a.stack := by
       rw [heq, List.take_left']
       · have := h.elems; rw [heq] at this; simpa using this
       · rfl
@@ -325,7 +325,7 @@ theorem stack_refines : ∀ (ops : List Op) (s : State) (a : AS), R s a → crun
     · rename_i hs
       rw [ih _ _ (hr (by simpa using hs))]
 
-def s0 : State := { vars := fun _ => 0, arr := [] }
+def s0 : State := { vars := fun _ => 0, arr := [], log := [] }
 def a0 : AS := {}
 
 theorem R_init : R s0 a0 := ⟨rfl, rfl, Nat.le_refl _, rfl, Or.inr ⟨rfl, rfl, rfl⟩⟩
